@@ -49,13 +49,30 @@ func init() {
 		// heapify loops: `for i := len(q.data) / 2; i >= 0; i--` in NewWithData and Reorder
 		var starts []string
 		for _, fn := range []*ast.FuncDecl{nwd, reorder} {
-			var loop *ast.ForStmt
-			ast.Inspect(fn, func(n ast.Node) bool {
-				if l, ok := n.(*ast.ForStmt); ok && loop == nil {
-					loop = l
-				}
-				return loop == nil
-			})
+			firstLoop := func(fn *ast.FuncDecl) (loop *ast.ForStmt) {
+				ast.Inspect(fn, func(n ast.Node) bool {
+					if l, ok := n.(*ast.ForStmt); ok && loop == nil {
+						loop = l
+					}
+					return loop == nil
+				})
+				return loop
+			}
+			loop := firstLoop(fn)
+			if loop == nil {
+				// the loop may have been moved into a parameterless helper method of the queue (`q.heapify()`)
+				ast.Inspect(fn, func(n ast.Node) bool {
+					if c, ok := n.(*ast.CallExpr); ok && len(c.Args) == 0 && loop == nil {
+						if s, ok := c.Fun.(*ast.SelectorExpr); ok && x.Src(s.X) == "q" {
+							if helper := x.funcQuiet(f, "Queue", s.Sel.Name); helper != nil && helper.Type.Params.NumFields() == 0 &&
+								len(helper.Recv.List[0].Names) == 1 && helper.Recv.List[0].Names[0].Name == "q" && len(helper.Body.List) == 1 {
+								loop = firstLoop(helper)
+							}
+						}
+					}
+					return loop == nil
+				})
+			}
 			if loop == nil || loop.Init == nil {
 				x.fail("%s: heapify loop not found", fn.Name.Name)
 				continue
